@@ -211,6 +211,19 @@ def battery(full):
                         res.append(ok)
                         if not ok:
                             fails.append((lab, kind, 'crossing-within-tolerance-not-a-point:%s-x-%s:%s' % (kind, ckind, lib.tname(r))))
+        if kind == 'Point' and fname in ('axis', 'pyth3'):
+            # two points eps/1000 apart are the same point under the current tolerance: no Line / Segment / HalfLine through them
+            for idx in range(3):
+                c2 = list(base_c)
+                c2[idx] = base_c[idx] + eps / 1000
+                for cname, ctor in (('Line', Line), ('Segment', Segment), ('HalfLine', HalfLine)):
+                    for form, th in (('PP', lambda: ctor(Point(*base_c), Point(*c2))),
+                                     ('PV', lambda: ctor(Point(*base_c), Vector(*[c2[i] - base_c[i] for i in range(3)])))):
+                        r = lib.call(th)
+                        ok = isinstance(r, lib.Raised)
+                        res.append(ok)
+                        if not ok:
+                            fails.append(('%s/%s(%s)/c%d' % (fname, cname, form, idx), cname, 'zero-length-within-current-tolerance-not-rejected'))
         if kind in ('Point', 'Vector'):
             for idx in (0, 1, 2, 3, 4, 5):
                 sgn = 1 if idx < 3 else -1
